@@ -26,6 +26,7 @@ type KeyEnt struct {
 	Note   string // as spelled (number or name)
 	NoteV  int
 	Offset *int
+	OffStr string // the offset as spelled, when the spelling matters (leading zeros)
 }
 
 type AxEnt struct {
@@ -114,7 +115,9 @@ func (d *Desc) TOML() string {
 		for _, ks := range m.Keys {
 			fmt.Fprintf(&b, "[[mapping.keys]]\nsubhandler = %q\n[mapping.keys.map]\n", ks.Name)
 			for _, k := range ks.Keys {
-				if k.Offset != nil {
+				if k.OffStr != "" {
+					fmt.Fprintf(&b, "%s = \"%s,%s\"\n", k.Key, k.Note, k.OffStr)
+				} else if k.Offset != nil {
 					fmt.Fprintf(&b, "%s = \"%s,%d\"\n", k.Key, k.Note, *k.Offset)
 				} else {
 					fmt.Fprintf(&b, "%s = %q\n", k.Key, k.Note)
